@@ -120,7 +120,136 @@ add_horiz("u16x2", "U16x2", "u16", 2, T32, "[[65535, 0], [1, 40000], [40000, 256
 add_horiz("u16x3", "U16x3", "u16", 3, T32, "[[65535, 0, 3], [1, 40000, 77], [40000, 256, 65534], [9, 65535, 100]]")
 add_horiz("u16x4", "U16x4", "u16", 4, T32, "[[65535, 0, 3, 1000], [1, 40000, 77, 0], [40000, 256, 65534, 65535], [9, 65535, 100, 32768]]")
 
-FUNCTIONS = [dict(file=D + "%s/native.rs" % t, fn="horiz_convolution") for t in ("u8x2", "u8x3", "u16x2", "u16x3", "u16x4")]
+
+
+# ------------------------------------------------------------------------------------------------------------------------------
+# vertical kernels: (DW+1) x 3 source -> DW x 2 destination (+ 1 spare pixel), column offset 0 / 1
+# ------------------------------------------------------------------------------------------------------------------------------
+def vert_run(pix, comp, nch, dw, norm_ty, oracle, cmp="=="):
+    """`fn run(sp, n, offset)`: sp[r] = the components of source row r.  oracle(r, [e0, e1, e2]) -> rust expression."""
+    sw = dw + 1
+    px = (lambda e: "%s::new(%s)" % (pix, e[0])) if nch == 1 else (lambda e: "%s::new([%s])" % (pix, ", ".join(e)))
+    get = (lambda a, i, c: "%s[%d].0" % (a, i)) if nch == 1 else (lambda a, i, c: "%s[%d].0[%d]" % (a, i, c))
+    src = ",\n            ".join(px(["sp[%d][%d]" % (r, x * nch + c) for c in range(nch)]) for r in range(3) for x in range(sw))
+    nd = 2 * dw + 1
+    dst = ",\n            ".join(px(["stale[%d]" % (i * nch + c) for c in range(nch)]) for i in range(nd))
+    asserts = []
+    for r in range(2):
+        for x in range(dw):
+            for c in range(nch):
+                col = ["sp[%d][(o + %d) * %d + %d]" % (rr, x, nch, c) for rr in range(3)]
+                asserts.append("        assert!(%s == %s);" % (get("dst", r * dw + x, c), oracle(r, col)))
+    for c in range(nch):
+        asserts.append("        assert!(%s == stale[%d]);      // spare pixel untouched" % (get("dst", 2 * dw, c), 2 * dw * nch + c))
+    for (r, x) in ((0, 0), (2, sw - 1)):
+        for c in range(nch):
+            asserts.append("        assert!(%s == sp[%d][%d]);" % (get("src", r * sw + x, c), r, x * nch + c))
+    return """
+    /// %(sw)d x 3 source (exactly sized) -> %(dw)d x 2 destination + 1 spare pixel; the destination starts with arbitrary content;
+    /// every destination component is compared with the oracle over its source column (so none depends on the stale content).
+    fn run(sp: [[%(comp)s; %(sc)d]; 3], n: &%(norm_ty)s, offset: u32) {
+        let src: [%(pix)s; %(ns)d] = [
+            %(src)s];
+        let stale: [%(comp)s; %(nst)d] = [%(anys)s];
+        let mut dst: [%(pix)s; %(nd)d] = [
+            %(dst)s];
+        {
+            let s = TypedImageRef::new(%(sw)d, 3, &src).unwrap();
+            let mut d = TypedImage::from_pixels_slice(%(dw)d, 2, &mut dst).unwrap();
+            vert_convolution(&s, &mut d, offset, n);
+        }
+        let o = offset as usize;
+%(asserts)s
+    }
+    fn any_rows() -> [[%(comp)s; %(sc)d]; 3] {
+        [%(anyrows)s]
+    }
+""" % dict(sw=sw, dw=dw, comp=comp, sc=sw * nch, norm_ty=norm_ty, pix=pix, ns=3 * sw, src=src, nst=nd * nch,
+           anys=", ".join(["kani::any()"] * (nd * nch)), nd=nd, dst=dst, asserts="\n".join(asserts),
+           anyrows=",\n         ".join("[" + ", ".join(["kani::any()"] * (sw * nch)) + "]" for _ in range(3)))
+
+
+VU16 = D + "vertical_u16/native.rs"
+ORC32 = lambda r, col: "fv_oracle32(n, %d, &[%s])" % (r, ", ".join(col))
+VHEAD = """
+    use crate::convolution::optimisations::fv_norm::*;
+    use crate::images::{TypedImage, TypedImageRef};
+    use crate::pixels::*;
+"""
+# taps with few set bits (the cost of a harness grows with the set bits of the constants x the number of outputs; the exact-value
+# relation for 'dirty' taps is carried by the tail-only harness and by the horizontal kernels)
+VT32 = "fv_norm32(30, &[(0, &[268435456, 805306368]), (1, &[-134217728, 1207959552])])"
+MODS.append(dict(file=VU16, name="fv_k10_vu16_x4w5", code=VHEAD + vert_run("U16x4", "u16", 4, 5, "Normalizer32", ORC32) + """
+    #[kani::proof]
+    #[kani::unwind(18)]
+    fn k10_vertical_u16_x4_w5_chunk_and_tail() {
+        let n = %s;
+        let sp = any_rows();
+        run(sp, &n, 0);
+        run(sp, &n, 1);
+    }
+""" % VT32))
+H("k10_vertical_u16_x4_w5_chunk_and_tail",
+  "U16x4 6x3 -> 5x2 (20 components per row: one 16-component chunk + 4-component tail), column offset 0 and 1, tap table (0.25, 0.75 | -0.125, 1.125) at precision 30, ALL pixel values, arbitrary stale destination",
+  "vertical u16 kernel == fx over the source column for every component, in the chunked loop and in the tail; result independent of the stale destination; spare pixel and source untouched; reads in bounds",
+  P_INT)
+
+# ---- experiments (temporary)
+MODS[2]["code"] += """
+    fn orc(n: &Normalizer32, chunk: usize, px: &[u16]) -> u16 {
+        let c = &n.chunks()[chunk];
+        let mut acc: i64 = 1i64 << (n.precision() - 1);
+        for (i, &k) in c.values().iter().enumerate() {
+            acc += px[c.start as usize + i] as i64 * (k as i64);
+        }
+        n.clip(acc)
+    }
+    fn runx(sp: [[u16; 2]; 3], n: &Normalizer32, own: bool) {
+        let src: [U16x2; 3] = [U16x2::new(sp[0]), U16x2::new(sp[1]), U16x2::new(sp[2])];
+        let stale: [[u16; 2]; 2] = kani::any();
+        let mut dst = [U16x2::new(stale[0]), U16x2::new(stale[1])];
+        {
+            let s = TypedImageRef::new(3, 1, &src).unwrap();
+            let mut d = TypedImage::from_pixels_slice(1, 1, &mut dst).unwrap();
+            horiz_convolution(&s, &mut d, 0, n);
+        }
+        if own {
+            assert!(dst[0].0[0] == orc(n, 0, &[sp[0][0], sp[1][0], sp[2][0]]));
+            assert!(dst[0].0[1] == orc(n, 0, &[sp[0][1], sp[1][1], sp[2][1]]));
+        } else {
+            assert!(dst[0].0[0] == fv_oracle32(n, 0, &[sp[0][0], sp[1][0], sp[2][0]]));
+            assert!(dst[0].0[1] == fv_oracle32(n, 0, &[sp[0][1], sp[1][1], sp[2][1]]));
+        }
+    }
+    #[kani::proof]
+    #[kani::unwind(6)]
+    fn k10_x1() { runx(kani::any(), &fv_norm32(31, &[(1, &[-214748365, 2147483647])]), false); }
+    #[kani::proof]
+    #[kani::unwind(6)]
+    fn k10_x2() { runx(kani::any(), &fv_norm32(31, &[(1, &[-214748365, 2147483647])]), true); }
+    #[kani::proof]
+    #[kani::unwind(6)]
+    fn k10_x3() { runx(kani::any(), &fv_norm32(31, &[(1, &[536870912, 1073741824])]), false); }
+    #[kani::proof]
+    #[kani::unwind(6)]
+    fn k10_x4() { runx(kani::any(), &fv_norm32(30, &[(1, &[-107374182, 1288490188])]), false); }
+"""
+MODS[2]["code"] += """
+    #[kani::proof]
+    #[kani::unwind(6)]
+    fn k10_x5() { runx(kani::any(), &fv_norm32(30, &[(1, &[-134217728, 1207959552])]), false); }
+    #[kani::proof]
+    #[kani::unwind(6)]
+    fn k10_x6() { runx(kani::any(), &fv_norm32(30, &[(1, &[107374182, 966367642])]), false); }
+    #[kani::proof]
+    #[kani::unwind(6)]
+    fn k10_x7() { runx(kani::any(), &fv_norm32(30, &[(1, &[268435456, 805306368])]), false); }
+"""
+for x in ("x5", "x6", "x7"):
+    H("k10_" + x, "exp", "exp", P_INT)
+
+FUNCTIONS = [dict(file=D + "%s/native.rs" % t, fn="horiz_convolution") for t in ("u8x2", "u8x3", "u16x2", "u16x3", "u16x4")] + [
+    dict(file=VU16, fn="vert_convolution"), dict(file=VU16, fn="convolution_by_u16"), dict(file=VU16, fn="convolution_by_chunks")]
 
 UNITS = [dict(
     id="K10",
